@@ -57,6 +57,7 @@ func doGC(c *kit.Ctx, x gcCase) {
 	}
 	w := newWorld(rules...)
 	t0 := baseTime()
+	var deleting []*v1.NodeClaim
 	for _, cl := range x.Claims {
 		nc := &v1.NodeClaim{
 			ObjectMeta: metav1.ObjectMeta{Name: cl.Name, CreationTimestamp: metav1.Time{Time: t0}},
@@ -69,9 +70,9 @@ func doGC(c *kit.Ctx, x gcCase) {
 		if cl.Deleting {
 			nc.Finalizers = []string{v1.TerminationFinalizer}
 		}
-		kit.Apply(ctx, w.inner, nc)
+		w.add(nc)
 		if cl.Deleting {
-			markDeleting(ctx, w.inner, nc)
+			deleting = append(deleting, nc)
 		}
 	}
 	for _, n := range x.Nodes {
@@ -82,7 +83,11 @@ func doGC(c *kit.Ctx, x gcCase) {
 				{Type: corev1.NodeReady, Status: corev1.ConditionStatus(n.Ready)},
 			}
 		}
-		kit.Apply(ctx, w.inner, node)
+		w.add(node)
+	}
+	w.build()
+	for _, nc := range deleting {
+		markDeleting(ctx, w.inner, nc)
 	}
 	cp := newProvider()
 	if x.ProviderFail {
